@@ -33,7 +33,7 @@ def mathStep (e : Env) (r : Rec) (ctx : Ctx) (acc : Doc × Bool) (node : ANode) 
 
 /-- `convert_math`. -/
 def convMath (e : Env) (r : Rec) (ctx : Ctx) (n : ANode) : M Doc := do
-  tick
+  enter .math n.attrs.id
   if n.attrs.disabled then return e.verb n.intoText
   let acc ← n.children.foldlM (mathStep e r ctx.suppress) (Doc.nil, false)
   pure acc.1
